@@ -248,6 +248,23 @@ def run_cases(cases):
     return results
 
 
+def run_raw(inputs):
+    """inputs: list of (mode, attr text, item text, meta): the REAL macro only (no model run), for hand-written requests
+    the S-expression encoding cannot spell (e.g. literals containing blanks).  Returns CaseResults with expected=None."""
+    lines = ['%d\t%s\t%s\t%s' % (i, m, a, it) for i, (m, a, it, _) in enumerate(inputs)]
+    rout = _group(_run_sharded(EXPANDER, lines, 'raw'))
+    results = []
+    for i, (m, a, it, meta) in enumerate(inputs):
+        r = CaseResult()
+        r.cid, r.sexp, r.meta, r.mode, r.attr, r.item, r.expected = i, None, meta, m, a, it, None
+        parts = rout.get(str(i), [])
+        r.actual = [p for p in parts if p[0] != 'END']
+        ends = [p for p in parts if p[0] == 'END']
+        r.end = ends[0] if ends else None
+        results.append(r)
+    return results
+
+
 def tokenize(texts):
     """flat token strings of arbitrary Rust text through the same lexer as the expander"""
     lines = ['%d\tT\t\t%s' % (i, t) for i, t in enumerate(texts)]
